@@ -6,7 +6,8 @@ from harness import xser, xbuild, defgen
 
 ID = "C05"
 REQUIRED_THEOREMS = ["entries_in_order", "nested_in_place", "valid_inheritors_filter", "descend_sound",
-                     "decodes_deterministic", "descend_complete", "parent_then_child", "views", "items_set_new"]
+                     "decodes_deterministic", "descend_complete", "parent_then_child", "views", "items_set_new",
+                     "decodes_fuel"]
 RULE = ("requests `parse <definition> - <packet>`; random container trees (depth<=4, fan-out<=4, abstract flags, shared "
         "nested containers, restriction criteria as ==, range pairs, boolean expressions, deliberately overlapping >=) and "
         "packets built by an encoder that steers into every node of the tree, every dead end (selector matching no child) "
@@ -76,10 +77,19 @@ def run_parse(defn, data, root=None):
 
 
 def impl(line):
+    from space_packet_parser import packets
     t = parse_sx(line)
     defn = get_def(t[1])
     root = None if t[2] == "-" else xbuild.uS(t[2])
-    return run_parse(defn, unhx(t[3]), root)
+    first = run_parse(defn, unhx(t[3]), root)
+    # decoding starts at the root container's first bit every time: the same raw-data object (as handed out by the
+    # framer) decoded again — e.g. after a first attempt with another root — gives the same answer
+    raw = packets.RawPacketData(unhx(t[3]))
+    for _ in range(2):
+        again = run_parse(defn, raw, root)
+        if again != first and not first.startswith("exc"):
+            return "err second-decode-differs"
+    return first
 
 
 def in_domain(line):
